@@ -205,6 +205,8 @@ int main(int argc, char** argv) {
   R.note("a second link between an already linked pair (parallel edge) may either raise (state unchanged) or succeed with all views agreeing as a multigraph; makeUndirected on reciprocal relations likewise");
   R.note("degree / number of neighbours = number of incident edges (what the code computes in directed mode); leaf = at most one distinct neighbour (Graph.h); getAllLeaves = nodes for which isLeaf holds");
   R.note("observer list queries skip nodes/edges that have no object (as coded); lists are compared as multisets; getNumberOfEdges of the observer = number of associated edge objects");
+  R.note("a must-raise call has to leave every private field unchanged, with one modelled exception: createNode(origin,new,edge) is createNode(new) then link(...), so when the link raises (absent origin, edge object in use) the new orphan node exists and is associated; the reference models that sequential effect (an atomic implementation is accepted too)");
+  R.note("associateNode/associateEdge with a graph id that does not exist is not driven: the library allows it on purpose (tree observers associate an edge object to the id they then pass to link(a,b,edgeId)); associating to an id that already has an object may raise, or must replace the old object (at most one object per id)");
   R.note("dissociateNode/Edge keep the object's index (as coded); deleting a node or edge must forget graph id and index of its object in every map");
   R.note("a std::exception that is not a bpp::Exception on a must-raise call is reported under its own signature class raised-non-bpp-exception; getNode/getEdge with a vacant index may return null, raise bpp::Exception or the std::out_of_range of vector::at (tagged, not judged)");
   R.note("copies of an observer share the subject graph by construction (shared_ptr); they are checked at copy time and destroyed, later edits of the source are not replayed against a living copy");
